@@ -529,6 +529,26 @@ def k_strided_index(repo):
     return Parser(tokenize(body), c).block_items(), c
 
 
+def k_strided_copy_index(repo):
+    """the flat position `make_strided_copy` writes to: the index loop inside the lambda handed to nd_map (result: `idx`)"""
+    text = strip_comments((Path(repo) / CORE / "backend/transformer/strided.hpp").read_text())
+    text = preprocess(text, ("NDEBUG",))
+    ptxt, body = find_function(text, r"\bmake_strided_copy")
+    m = re.search(r"\[&sizes, &nother, &res\]\(decltype\(sizes\) t\) \{", re.sub(r"\s+", " ", body))
+    if not m:
+        raise Untranslatable("make_strided_copy: lambda not found")
+    flat = re.sub(r"\s+", " ", body)
+    rest = flat[m.end():]
+    stop = rest.find("typename contravariant_input_t::vector_t c;")
+    if stop < 0:
+        raise Untranslatable("make_strided_copy: end of the index loop not found")
+    c = Ctx({"std::size_t": "S", "size_t": "S", SCALAR_T: "T"}, {"contravariant_input_t::dimensions": "N"})
+    c.array("t", "S")
+    c.array("sizes", "S")
+    c.scalar("N", "S")
+    return Parser(tokenize(rest[:stop]), c).block_items(), c
+
+
 KERNELS = {
     "round_pow2": (k_round_pow2, "utility/numeric.hpp round_pow2"),
     "ipow": (k_ipow, "utility/numeric.hpp ipow"),
@@ -536,6 +556,7 @@ KERNELS = {
     "morton_index": (k_morton_index, "backend/transformer/morton.hpp calculate_index, build without BMI2"),
     "morton_index_bmi2_off": (k_morton_index_bmi2_off, "backend/transformer/morton.hpp calculate_index, BMI2 build, use_bmi2 = false"),
     "strided_index": (k_strided_index, "backend/transformer/strided.hpp non_owning_data_t::at, flat index"),
+    "strided_copy_index": (k_strided_copy_index, "backend/transformer/strided.hpp make_strided_copy, flat index written to (variable idx)"),
 }
 
 
